@@ -834,6 +834,7 @@ func TestVerifC01(t *testing.T) {
 			})
 		}
 	})
+	completeBC := complete
 	if !complete {
 		c.Capped("box B time budget")
 	}
@@ -959,6 +960,7 @@ func TestVerifC01(t *testing.T) {
 			c.Sample(map[string]any{"box": "C", "leaf": leaf.desc(), "ca": ca.spec.desc(), "mutation_alphabet": ops, "depth": depth, "times": len(times)})
 		}
 	})
+	completeBC = completeBC && complete
 	if !complete {
 		c.Capped("box C time budget")
 	}
@@ -1087,7 +1089,12 @@ func TestVerifC01(t *testing.T) {
 	}
 	c.Set("impl_results", implResults)
 
-	if c.Violations() == 0 {
+	c.Set("boxes_B_and_C_complete", completeBC)
+	if c.Violations() == 0 && !completeBC {
+		// the soft budget ran out before the small boxes finished (overloaded machine): less was explored, not a broken harness
+		c.Require(st.accepts > 0 && st.rejects > 0, "accepts=%d rejects=%d", st.accepts, st.rejects)
+	}
+	if c.Violations() == 0 && completeBC {
 		c.Require(st.accepts > 0 && st.rejects > 0, "accepts=%d rejects=%d", st.accepts, st.rejects)
 		for i, n := range st.sole {
 			if uint32(1)<<uint(i) == c01FCATime || uint32(1)<<uint(i) == c01FCurve {
